@@ -1,0 +1,27 @@
+//go:build verif
+
+package txwatcher
+
+// Verification hooks (build tag verif): read-only views of the watcher's
+// unexported bookkeeping, so that a harness can feed block notifications to a
+// running observation loop step by step and see when it has returned.
+
+// VerifObserverChan returns the notification channel of the observation loop
+// registered for swapId; ok is false once the loop has returned.
+func (l *BlockchainRpcTxWatcher) VerifObserverChan(swapId string) (ch chan<- uint32, ok bool) {
+	l.Lock()
+	defer l.Unlock()
+	o, ok := l.observerLoopList[swapId]
+	if !ok {
+		return nil, false
+	}
+	return o.blockChan, true
+}
+
+// VerifCsvWatched reports whether swapId is in the csv watch list.
+func (l *BlockchainRpcTxWatcher) VerifCsvWatched(swapId string) bool {
+	l.Lock()
+	defer l.Unlock()
+	_, ok := l.csvtxWatchList[swapId]
+	return ok
+}
